@@ -5,15 +5,17 @@
 // Fragment lengths are UNBOUNDED symbolic usize values (objects of symbolic size; the code never reads fragment bytes), the
 // number of fragments of every piece is symbolic in 0..=4, N is the const generic (one harness per N in 0..=8):
 // exactly the property's quantifier, so these obligations are complete.
+use alloc::vec::Vec; use alloc::vec;
 macro_rules! vassert { ($c:expr, $m:literal) => { kani::assert($c, $m) }; }
 
 const MAXF: usize = 4;
 const MAXREC: usize = 1 + 8 * (1 + MAXF);
 
-#[derive(Clone, Copy)]
-struct Rec { ptr: usize, len: usize, is_head: bool, head: [u8; 8] }
-
-struct Log<const N: usize> { n: usize, recs: [Rec; MAXREC], frags: [[(usize, usize); MAXF]; N] }
+/// Ghost log of the writes, as parallel arrays of plain integers (no bool / padding: values read at a symbolic index stay exact).
+struct Log<const N: usize> { n: usize, ptr: [usize; MAXREC], len: [usize; MAXREC], is_head: [u8; MAXREC], head: [u64; MAXREC], frags: [[(usize, usize); MAXF]; N] }
+impl<const N: usize> Log<N> {
+    fn new(frags: [[(usize, usize); MAXF]; N]) -> Self { Log { n: 0, ptr: [0; MAXREC], len: [0; MAXREC], is_head: [0; MAXREC], head: [0; MAXREC], frags } }
+}
 impl<const N: usize> WriteBytes for Log<N> {
     fn write(&mut self, slice: &[u8]) {
         let p = slice.as_ptr() as usize;
@@ -30,13 +32,16 @@ impl<const N: usize> WriteBytes for Log<N> {
             }
             i += 1;
         }
-        let mut head = [0u8; 8];
+        let mut head = 0u64;
         if !is_frag {
             vassert!(slice.len() == 8, "[C15] every non-fragment write is an 8-byte length/count header");
-            head.copy_from_slice(slice);
+            let mut h = [0u8; 8];
+            h.copy_from_slice(slice);
+            head = u64::from_le_bytes(h);
         }
         vassert!(self.n < MAXREC, "[C15] no more writes than count + per piece (length + fragments)");
-        self.recs[self.n] = Rec { ptr: p, len: slice.len(), is_head: !is_frag, head };
+        let k = self.n;
+        self.ptr[k] = p; self.len[k] = slice.len(); self.is_head[k] = (!is_frag) as u8; self.head[k] = head;
         self.n += 1;
     }
 }
@@ -50,7 +55,12 @@ fn frag(len: usize) -> &'static [u8] {
     }
 }
 
-fn pae_shape<const N: usize>() {
+/// `focus`: None = every piece has a symbolic number of fragments (full product, N <= 5 tractable);
+/// Some = only ONE piece, at a symbolic position, has a symbolic fragment count 0..=4, all others have exactly one fragment
+/// (the loop body of pre_auth_encode treats pieces independently; used for N = 4..=8 in the quick tier).
+fn pae_shape<const N: usize>() { pae_shape_f::<N>(false) }
+fn pae_focus<const N: usize>() { pae_shape_f::<N>(true) }
+fn pae_shape_f<const N: usize>(focus: bool) {
     // real memory: the total length of everything that exists fits isize (precondition "slices are real objects")
     const LIM: usize = 1 << 40;
     let lens: [[usize; MAXF]; N] = kani::any();
@@ -58,9 +68,11 @@ fn pae_shape<const N: usize>() {
     let empty: &'static [u8] = &[];
     let mut store: [[&'static [u8]; MAXF]; N] = [[empty; MAXF]; N];
     let mut ids: [[(usize, usize); MAXF]; N] = [[(0, 0); MAXF]; N];
+    let fp: usize = kani::any();
     let mut i = 0;
     while i < N {
         kani::assume(cnt[i] <= MAXF);
+        if focus { kani::assume(fp < N && (i == fp || cnt[i] == 1)); }
         let mut j = 0;
         while j < MAXF {
             kani::assume(lens[i][j] < LIM);
@@ -75,26 +87,25 @@ fn pae_shape<const N: usize>() {
     let mut i = 0;
     while i < N { pieces[i] = &store[i][..cnt[i]]; i += 1; }
 
-    let mut log = Log::<N> { n: 0, recs: [Rec { ptr: 0, len: 0, is_head: false, head: [0; 8] }; MAXREC], frags: ids };
+    let mut log = Log::<N>::new(ids);
     pre_auth_encode(pieces, &mut log);
 
     // expected trace
     let mut k = 0usize;
-    vassert!(log.n >= 1 && log.recs[0].is_head && log.recs[0].head == (N as u64).to_le_bytes(), "[C15] first the little-endian 64-bit piece count");
+    vassert!(log.n >= 1 && log.is_head[0] == 1 && log.head[0] == N as u64, "[C15] first the little-endian 64-bit piece count");
     k += 1;
     let mut i = 0;
     while i < N {
         let mut total: u64 = 0;
         let mut j = 0;
         while j < MAXF { if j < cnt[i] { total += lens[i][j] as u64; } j += 1; }
-        vassert!(k < log.n && log.recs[k].is_head && log.recs[k].head == total.to_le_bytes(),
+        vassert!(k < log.n && log.is_head[k] == 1 && log.head[k] == total,
             "[C15] each piece starts with the little-endian 64-bit total length of its fragments");
         k += 1;
         let mut j = 0;
         while j < MAXF {
             if j < cnt[i] {
-                let r = log.recs[k];
-                vassert!(k < log.n && r.len == lens[i][j] && (r.len == 0 || (!r.is_head && r.ptr == ids[i][j].0)),
+                vassert!(k < log.n && log.len[k] == lens[i][j] && (lens[i][j] == 0 || (log.is_head[k] == 0 && log.ptr[k] == ids[i][j].0)),
                     "[C15] then every fragment of the piece, in order, by identity (same bytes)");
                 k += 1;
             }
@@ -113,6 +124,11 @@ shapes! {
     pae_n0 = 0 unwind 10; pae_n1 = 1 unwind 10; pae_n2 = 2 unwind 10; pae_n3 = 3 unwind 10; pae_n4 = 4 unwind 10;
     pae_n5 = 5 unwind 10; pae_n6 = 6 unwind 10; pae_n7 = 7 unwind 10; pae_n8 = 8 unwind 10;
 }
+macro_rules! focus { ($($name:ident = $n:literal;)*) => { $(
+    #[kani::proof] #[kani::unwind(10)]
+    pub fn $name() { pae_focus::<$n>(); kani::cover!(true, "harness end reachable"); }
+)* }; }
+focus! { pae_focus_n4 = 4; pae_focus_n5 = 5; pae_focus_n6 = 6; pae_focus_n7 = 7; pae_focus_n8 = 8; }
 
 /// Vec<u8> writer: appends exactly the slice (streaming writers receive the same byte sequence as a buffer would hold)
 #[kani::proof] #[kani::unwind(12)]
@@ -150,7 +166,7 @@ pub fn canary_pae() {
     kani::assume(l < (1 << 40));
     let f0 = frag(l);
     let ids = [[(f0.as_ptr() as usize, l), (0, 0), (0, 0), (0, 0)]];
-    let mut log = Log::<1> { n: 0, recs: [Rec { ptr: 0, len: 0, is_head: false, head: [0; 8] }; MAXREC], frags: ids };
+    let mut log = Log::<1>::new(ids);
     let fr = [f0];
     pre_auth_encode([&fr[..]], &mut log);
     vassert!(l != 600, "canary: must fail (false claim about the symbolic fragment length)");
